@@ -705,10 +705,15 @@ func (h *StreamableHTTPHandler) serveStatefulPOST(w http.ResponseWriter, req *ht
 		return
 	}
 
+	// closedEarly (guarded by h.mu) is set if the session is closed before it has
+	// been entered into h.sessions below: it is visible in Server.Sessions as
+	// soon as it is connected.
+	closedEarly := false
 	connectOpts := &ServerSessionOptions{
 		onClose: func() {
 			h.mu.Lock()
 			defer h.mu.Unlock()
+			closedEarly = true
 			if info, ok := h.sessions[transport.SessionID]; ok {
 				info.stopTimer()
 				delete(h.sessions, transport.SessionID)
@@ -747,7 +752,12 @@ func (h *StreamableHTTPHandler) serveStatefulPOST(w http.ResponseWriter, req *ht
 		})
 	}
 	h.mu.Lock()
-	h.sessions[transport.SessionID] = sessInfo
+	if closedEarly {
+		// Already closed: entering it now would keep honouring a dead session's id.
+		sessInfo.stopTimer()
+	} else {
+		h.sessions[transport.SessionID] = sessInfo
+	}
 	h.mu.Unlock()
 	defer func() {
 		// If initialization failed, clean up the session (#578).
